@@ -74,20 +74,32 @@ def assigned_var(stmt):
     return None, None
 
 
-def pad_kind(stmt):
+def pad_kind(stmt, unit=None):
     """If stmt is an alignment step on some variable X, return (kind, X id, table) with kind 'pad+' / 'pad';
-    None otherwise.  Decided by evaluation over X = 0..11 with every other variable = 0."""
+    None otherwise.  Decided by evaluation over X = 0..11 with every other variable = 0; an alignment helper of the unit
+    (`pos = pad(pos)`) is evaluated through its body."""
     x, core = assigned_var(stmt)
     if x is None:
         return None
+    helpers = {}
+    if unit is not None:
+        for c in A.calls_in(stmt):
+            n = A.callee_name(c)
+            fns = [f for f in unit.functions.get(n, []) if unit.body(f) is not None] if n else []
+            if len(fns) == 1:
+                helpers[n] = fns[0]
     # must mention a modulo or mask by 4 somewhere: cheap pre-filter only, the table decides
     txt = A.src(stmt)
-    if "%" not in txt and "&" not in txt:
+    if "%" not in txt and "&" not in txt and not helpers:
         return None
-    others = refs(stmt) - {x}
+    others = refs(stmt) - {x} - {(A.strip_casts(A.kids(c)[0]).get("referencedDecl") or {}).get("id") for c in A.calls_in(stmt)}
     table = {}
     for v in range(0, 12):
-        ev = FD.Eval(env={x: v, **{o: 0 for o in others}})
+        def call(name, vals, n):
+            if name in helpers:
+                return ev.call_function(unit, helpers[name], vals)
+            raise FD.Unknown("call to %s" % name, n)
+        ev = FD.Eval(env={x: v, **{o: 0 for o in others}}, call=call)
         try:
             ev.run(stmt)
         except FD.Unknown:
@@ -184,7 +196,7 @@ class Summariser:
                         elif t.get("kind") == "CallExpr" and A.callee_name(t) == "strlen" and sign == 1:
                             S.add("strlen")
                         elif t.get("kind") == "DeclRefExpr" and sign == 1:
-                            S.add("len")
+                            S.add("strlen" if self._is_strlen_local(t) else "len")
                         elif t.get("kind") == "CallExpr" and A.callee_name(t) in self.len_calls and sign == 1:
                             S.add("len")
                         else:
@@ -199,6 +211,28 @@ class Summariser:
                 S.va_types.append(A.qtype(x))
 
     # -- loops ----------------------------------------------------------------
+    def _is_strlen_local(self, ref):
+        """a local initialised with strlen(...) and never written again stands for that strlen"""
+        d = self.u.by_id.get((ref.get("referencedDecl") or {}).get("id"))
+        if d is None or d.get("kind") != "VarDecl" or not A.kids(d):
+            return False
+        init = A.strip_casts(A.kids(d)[-1])
+        if not (init.get("kind") == "CallExpr" and A.callee_name(init) == "strlen"):
+            return False
+        fn = None
+        for a in self.u.ancestors(d):
+            if a.get("kind") in ("FunctionDecl", "CXXMethodDecl"):
+                fn = a
+                break
+        if fn is None:
+            return False
+        for y in A.walk(fn):
+            if y.get("kind") in ("BinaryOperator", "CompoundAssignOperator") and y.get("opcode", "").endswith("=") and y.get("opcode") not in ("==", "!=", "<=", ">=") and var_id(A.kids(y)[0]) == d["id"]:
+                return False
+            if y.get("kind") == "UnaryOperator" and y.get("opcode") in ("++", "--", "&") and var_id(A.kids(y)[0]) == d["id"]:
+                return False
+        return True
+
     def loop_effect(self, loop, S):
         k = loop.get("kind")
         ks = A.kids(loop)
@@ -206,6 +240,15 @@ class Summariser:
             cond, body = ks[0], ks[-1]
         elif k == "DoStmt":
             body, cond = ks[0], ks[1]
+        elif k == "ForStmt":
+            raw = loop.get("inner", [])
+            init, cond, inc, fbody = raw[0], raw[2], raw[3], raw[4]
+            if not cond.get("kind"):
+                raise Unrecognised("for loop without a condition at " + A.where(loop))
+            if init.get("kind") and (refs(init) & self.pos) and init.get("kind") != "DeclStmt":
+                raise Unrecognised("for loop initialises the cursor at " + A.where(loop))
+            # for(init; cond; inc) body  ==  init; while(cond) { body; inc; }
+            body = {"kind": "CompoundStmt", "inner": [fbody] + ([inc] if inc.get("kind") else []), "id": "for-body", "range": loop.get("range")}
         else:
             raise Unrecognised("loop form %s at %s" % (k, A.where(loop)))
         n_pos = count_incs(cond, self.pos) + count_incs(body, self.pos)
@@ -266,7 +309,7 @@ class Summariser:
                         S.ret = A.src(e)
                         self.expr_effects(ks[0], S)
                 continue
-            pk = pad_kind(s)
+            pk = pad_kind(s, self.u)
             if pk is not None:
                 kind, x, table = pk
                 if kind == "other":
